@@ -99,7 +99,9 @@ check('C11', TV,
       " Mixed-integer programs unbounded along an integer ray carry a z3 certificate (feasible point + integral improving recession direction); an interface returning an 'optimum' for them is a violation.",
       'Trusted: z3; the exact optimum of MILPs is computed by solver-guided enumeration of integer assignments. The '
       'interface code and C libraries run concretely (in a child process with a time limit); exp-cone programs are '
-      'outside; tolerance 1e-6 (LP/MILP), 1e-4 (interior-point SOC).',
+      'outside; tolerance 1e-6 (LP/MILP), 1e-4 (interior-point SOC). Exponential-cone models enter through soc_solve(): the '
+      'program every SOC-capable interface receives is the real to_socp() output; the returned vector is checked against its '
+      'rows, bounds and cone memberships by exact rational arithmetic (ground check: the 7-cone towers are undecided for nlsat).',
       'SMT certification (QF_LRA/QF_LIRA/QF_NRA) of every interface result against the compiled program',
       'DESIGN.md section 4 C11')
 
@@ -111,7 +113,7 @@ check('C14', TV,
       'dual-weighted right-hand sides = objective value, signs by direction of optimisation, results shaped like their '
       'constraints. Concrete half: the (pi, upi, lpi) of each dual-capable interface (SciPy, Gurobi, ECOS) give a valid '
       'certificate whose value equals the exact optimum computed by z3. Objective fronts: min/max, rsome.lp, and the same objective stated with minmax()/maxmin() over a random variable that does not matter.'
-      ' Constraints written as 2-D expressions must return duals in that shape.',
+      ' Constraints written as 2-D expressions must return duals in that shape. Build histories: the model is formulated or solved when only a prefix of the constraint objects exists; dual() must read the rows of its own constraint in the program compiled last.',
       'Trusted: the KKT convention of the interfaces (stated in evidence.assumptions); z3; the harness\'s own reading of '
       'the user model from the generator spec. Bounded: <= 4 variables, <= 4 constraint arrays, one upper/lower bound '
       'constraint per entry.',
@@ -123,7 +125,7 @@ check('C16', TV,
       'show() is converted back; z3 decides that each denotes exactly the formula that is solved: the feasible sets '
       '(linear rows, second-order-cone rows, bounds) have empty symmetric difference, the objectives are equal as linear '
       'forms, and General/Binary/Type data induce the same domains.'
-      ' Binary columns are read under both conventions of LP readers (explicit Bounds entries intersected with [0,1] or kept); programs with exponential cones must be refused by the export.',
+      ' Binary columns are read under both conventions of LP readers (explicit Bounds entries intersected with [0,1] or kept); programs with exponential cones must be refused by the export. Every program is exported twice: its primal formula and its dual formula do_math(primal=False) (general objective vectors, free and sign-constrained multipliers).',
       'Trusted: the harness LP reader (LP-format defaults, float() for decimal strings), z3. Float formatting itself runs '
       'concretely on enumerated coefficient values (negative, zero, 1e-9, 1e9, 1/3, infinite bounds, empty rows).',
       'SMT equivalence (xor of feasible sets, QF_LRA/QF_NRA) between formula and parsed export',
@@ -187,7 +189,8 @@ check('C18', TV,
       'the three rotated cones f*al>=y^2, g*al>=(y+al)^2, h*al>=g^2, the Taylor row and its degree-4 polynomial '
       'consequence v0*al^3 >= al^4*T4(y/al), every squaring stage, and completability of each stage. Accuracy: '
       '(1+delta_L)^(2^L) <= 1+1e-3 with exact rational enclosures of e, decided as ground rational arithmetic. Concrete '
-      'layer: real soc_solve (ECOS) on a grid of exponents within 1e-3 of exp.',
+      'layer: real soc_solve (ECOS and Gurobi) on a grid of exponents within 1e-3 of exp. Head-sign lemma: rows and bounds of the '
+      'appended block alone imply head >= 0 for every appended cone (interfaces that state a cone as tail\'tail <= head^2 rely on it).',
       'Trusted/stated lemmas: composition of the squaring stages (monotone squaring), Taylor remainder, perspective split '
       'for the cut-off rows. The real SOC solver is used only in the concrete layer.',
       'SMT stage lemmas (QF_LRA/QF_NRA) on the real to_socp() matrix + ground rational accuracy bound',
@@ -202,9 +205,11 @@ check('C03', TV,
       'and that plain constraints hold at every scenario and support vertex (QF_LRA with ite-max for piecewise integrands). '
       'Layer B: for the real solve() point the weights are symbolic (no enumeration of W). Probability sets with KL-divergence '
       'or entropy constraints: the weights stay symbolic, cone memberships are weakened to the pairing inequality and the '
-      'bilinear system (weights x compiled columns) is refuted by reformulation-linearisation (QF_LRA). Further members: expectation equalities E(..) == c, sums of expectations, equalities of adaptive decisions with their own set, convex functions of affinely adaptive decisions (which RSOME must refuse or compile correctly).',
+      'bilinear system (weights x compiled columns) is refuted by reformulation-linearisation (QF_LRA). Further members: expectation equalities E(..) == c, sums of expectations, equalities of adaptive decisions with their own set, convex functions of affinely adaptive decisions (which RSOME must refuse or compile correctly), a random variable written outside E() next to an expectation (robust in either operand order). '
+      'Supports / expectation sets with second-order-cone constraints (balls, second-moment liftings, norm-bounded means): the adversary in moment form (masses and first moments per scenario and piece, perspectives of the support constraints), '
+      'coupled to the compiled block by Cauchy-Schwarz pairings under every permutation and reflection of the cone tails, refuted by reformulation-linearisation (QF_LRA, only unsat used; stretch obligations, real counterexamples by explicit discrete distributions).',
       'Trusted: Lemma J and Lemma V (stated), the pairing inequality of the exponential cone, z3, oracle reading of the '
-      'ambiguity set. Polyhedral supports and expectation sets only; norm-2 sets are outside.',
+      'ambiguity set, Lemma M (moment form, DESIGN.md 3.11). Exactness for conic supports is outside (C04 keeps polyhedral sets).',
       'SMT translation validation (QF_LRA inclusion) of the compiled DRO reformulation against vertex distributions',
       'DESIGN.md section 4 C03')
 
@@ -225,7 +230,7 @@ check('C09', TV,
       'API only; the program compiled after the history must satisfy the C01/C02 (ro) resp. C03/C04 (dro) obligations '
       'against the semantics of the declared model - inclusion for all compiled-feasible points and realisations / '
       'distributions, exists-forall projection per block - and have the same exact optimum as a fresh build. Decoy sets are tight and rotate through every constraint list of the shared support model (bounds, linear, abs/1-/inf-norm, 2-norm, p-norm, exp-type); further histories: integer variables declared after a formulation, one constraint object used with two forall() sets, ambiguity sets changed after a solve with nothing else declared.'
-      ' Random variables declared after a set was compiled (ro: exact optimum against the build that declares them first; dro: history late_rvar_after_solve); one piecewise constraint object used with two sets.',
+      ' Random variables declared after a set was compiled (ro: exact optimum against the build that declares them first; dro: history late_rvar_after_solve); one piecewise constraint object used with two sets; a random variable declared after a set with auxiliary columns and a set without; one Affine / RoAffine / decision-rule object indexed or summed in one constraint and reshaped / transposed in another (both orders against a fresh object per use); set descriptions without constraints after another set was compiled.',
       'Trusted as C01-C04. Equality of denoted sets, not of matrices, is the oracle (histories may reorder or add columns).',
       'SMT translation validation of the program compiled after each history + exact optimum vs fresh build',
       'DESIGN.md section 4 C09')
@@ -233,7 +238,7 @@ check('C09', TV,
 check('C15', TV,
       'Every member of the rewrite group (min f / -max -f, declaration order, a<=b / -b<=-a / b>=a, equality / two '
       'inequalities, bounds as Bounds / linear constraints / inf-norm, array / loops, positive rescaling, set as list / '
-      'several arguments, ro / single-scenario dro) is compiled by the real code and z3 computes the exact optimum of each '
+      'several arguments, ro / single-scenario dro, a random variable fixed at a non-zero value by an equality / two bound objects / two rows) is compiled by the real code and z3 computes the exact optimum of each '
       'compiled program over exact rationals; all variants of a base model must agree exactly, and the real solve() must '
       'report that value.',
       'Trusted: z3 Optimize (LRA). Base family is LP-representable (box / 1-norm sets, LDR); rewrites are composed in '
